@@ -49,7 +49,7 @@ KNOWN_FINDING_STDOUT_AFTER_IDLE_ON_ERROR = _open('C19-stdout-after-idle-on-error
 # Skipped shape: requests with buffers are not generated.
 KNOWN_FINDING_BUFFERS_COVERED_BY_SIGNATURE = _open('C19-buffers-covered-by-signature')
 
-CASE_TIMEOUT = 10.0
+CASE_TIMEOUT = 30.0  # real seconds; only a genuine hang (busy loop at EOF) ever gets near it
 
 # ------------------------------------------------------------------------------------------
 # part 1: frames
@@ -719,7 +719,7 @@ async def run_overlap(case):
             await kh.feed_fragments(rd2, data_b, [])
             await s.quiesce()
         overlapped = len(s.shell.items()) == s.shell.seen_items  # A has not been answered yet: the requests really overlap
-        for _ in range(400):
+        for _ in range(6000):  # up to 30 s of real time on a loaded machine; normally 20-40 ms
             if len(s.shell.items()) > s.shell.seen_items:
                 break
             await asyncio.sleep(0.005)
